@@ -39,8 +39,8 @@ def audit(F, what, expected_nv=None):
                 raise Violation("{}: degree {!r} is not an integer".format(what, row[-1]))
             for t in row[:-2]:
                 c, l = t
-                if not isinstance(c, int) or isinstance(c, bool) or c <= 0:
-                    raise Violation("{}: coefficient {!r} is not a positive integer".format(what, c))
+                if not isinstance(c, int) or isinstance(c, bool) or c < 0:
+                    raise Violation("{}: coefficient {!r} is not a non-negative integer (rows are kept normalised)".format(what, c))
                 if not isinstance(l, int) or isinstance(l, bool) or l == 0 or abs(l) > n:
                     raise Violation("{}: literal {!r} outside 1..{} (row {})".format(what, l, n, rows))
                 lits += 1
@@ -738,7 +738,7 @@ def strat_history(draw):
                              st.just(['new_variable']), st.lists(I(0, 3), min_size=1, max_size=2).map(lambda d: ['new_block', d]))
             ops.append([kind, draw(st.lists(item, max_size=6)), draw(st.sampled_from(['list', 'generator'])), draw(B_)])
         elif kind == 'add_constraint':
-            pairs = draw(st.lists(st.tuples(st.integers(-3, 3).filter(bool), st.integers(-40, 40).filter(bool)), max_size=4))
+            pairs = draw(st.lists(st.tuples(st.integers(-3, 3), st.integers(-40, 40).filter(bool)), max_size=4))      # a term with coefficient 0 still mentions its variable
             ops.append([kind, [list(p) for p in pairs], draw(st.sampled_from(['>=', '<=', '>', '<', '=='])), S(-3, 6), draw(B_),
                         draw(st.sampled_from(['tuple', 'list']))])
         elif kind == 'builder_nocheck':
@@ -753,12 +753,12 @@ def strat_history(draw):
 
 SUBCHECKS = [
     SubCheck('families', run_family, strategy=strat_family, quick=1600, thorough=40000,
-             rule="every family through the library at realistic sizes (php up to 40x30, graph families on gnm/regular/grid graphs up to 60 vertices from seeded networkx generators, op 16, stone 14x6, cpls 4x8x8, pitfall 10 vertices, vdw 60, ptn 300, random 4-CNF 200x400, ...), CNF and OPB classes, followed by chains of 0..3 transformations (one clause-expanding step; size bounded before building); oracle: every literal a non-zero int (not bool) within 1..number_of_variables(), OPB coefficients positive, number_of_variables() equals the documented count re-derived from the parameters, as many names as variables, no freshness event (hook H1), input untouched by the chain; non-trivial: >=100 rows or a chain applied",
+             rule="every family through the library at realistic sizes (php up to 40x30, graph families on gnm/regular/grid graphs up to 60 vertices from seeded networkx generators, op 16, stone 14x6, cpls 4x8x8, pitfall 10 vertices, vdw 60, ptn 300, random 4-CNF 200x400, ...), CNF and OPB classes, followed by chains of 0..3 transformations (one clause-expanding step; size bounded before building); oracle: every literal a non-zero int (not bool) within 1..number_of_variables(), OPB coefficients non-negative, number_of_variables() equals the documented count re-derived from the parameters, as many names as variables, no freshness event (hook H1), input untouched by the chain; non-trivial: >=100 rows or a chain applied",
              required_labels=sorted(INSTANCES) + ['CNF', 'OPB', 'chain-length>=2', 'T:xorcomp', 'T:lift', 'T:shuffle']),
     SubCheck('tools', run_cli, strategy=strat_cli, enumerate_cases=enum_cli, quick=600, thorough=20000,
              rule="every sub-command of the catalogue through cnfgen (with -T chains) and pbgen built in-process; same structural oracle on the returned object, and for cnfgen with -T the declared number of variables equals the documented function (x k, x 3, x 2k, N) of the number declared without the chain; enumerated: formulas with variables but no clauses (randkcnf k n 0, ptn 4, or 2 0 -T atmost 2 2, ...) through every transformation and pairs of transformations",
              required_labels=['cnfgen', 'pbgen', 'no-clauses', 'count-after-chain']),
     SubCheck('history', run_history, strategy=strat_history, quick=1500, thorough=60000,
-             rule="op logs (1..30 steps) on CNF and OPB: all eleven group constructors with generated shapes (empty groups included), add_clause(check=True) with arbitrary literals up to 40, add_clause(check=False) and check=False builders restricted to declared variables, checked builders, update_variable_number, add_clauses_from on lists and on lazy iterables that allot variables/blocks between two clauses, a single clause given as a generator that allots blocks while it is read and yields only some of the new variables, OPB add_constraint/add_constraints_from with (coefficient, literal) pairs given as tuples or as lists and all five operators, insertions that must be refused (literal 0, a string literal, an unknown operator, through add_clause / add_clauses_from / add_parity / cardinality_leq / add_linear / add_constraint: ValueError, no row kept, declared count unchanged); model: the largest identifier mentioned/allotted so far; after every step: new group contiguous and strictly above the model value, declared count never decreases and covers the model value; at the end the structural oracle + empty H1 record; non-trivial: >=2 group creations separated by an insertion that raised the count",
+             rule="op logs (1..30 steps) on CNF and OPB: all eleven group constructors with generated shapes (empty groups included), add_clause(check=True) with arbitrary literals up to 40, add_clause(check=False) and check=False builders restricted to declared variables, checked builders, update_variable_number, add_clauses_from on lists and on lazy iterables that allot variables/blocks between two clauses, a single clause given as a generator that allots blocks while it is read and yields only some of the new variables, OPB add_constraint/add_constraints_from with (coefficient, literal) pairs (coefficients -3..3, zero included: such a term still mentions its variable) given as tuples or as lists and all five operators, insertions that must be refused (literal 0, a string literal, an unknown operator, through add_clause / add_clauses_from / add_parity / cardinality_leq / add_linear / add_constraint: ValueError, no row kept, declared count unchanged); model: the largest identifier mentioned/allotted so far; after every step: new group contiguous and strictly above the model value, declared count never decreases and covers the model value; at the end the structural oracle + empty H1 record; non-trivial: >=2 group creations separated by an insertion that raised the count",
              required_labels=GROUP_OPS + ['CNF', 'OPB', 'allot-inside-batch', 'constraint-pairs:list', 'constraint-pairs:tuple', 'refused-insertion', 'lazy-clause']),
 ]
